@@ -32,6 +32,7 @@ from .values import (
     SDict,
     SList,
     WeakRef,
+    AbsObj,
     Maybe,
     maybe,
     dyn_sort,
@@ -436,6 +437,14 @@ class Interp:
             raise Unsupported(f"super().{name} not found")
         if isinstance(v, Obj):
             return self.getattr_obj(v, name, frame)
+        if isinstance(v, AbsObj):
+            if name in v.attrs:
+                return v.attrs[name]
+            if name in v.methods:
+                return EngineCallable(lambda interp, a, kw, _m=v.methods[name]: _m(interp, a, kw), f"{v.tag}.{name}")
+            if name == "__class__" and v.cls is not None:
+                return v.cls
+            self.raise_(AttributeError, f"{self.where()} {v.tag}.{name}")
         if hasattr(v, "guard"):
             v.guard(self)
         key = None
@@ -562,6 +571,12 @@ class Interp:
                 return
             obj.fields[name] = value
             return
+        if isinstance(obj, AbsObj):
+            if "__setattr__" in obj.methods:
+                obj.methods["__setattr__"](self, [name, value], {})
+            else:
+                obj.attrs[name] = value
+            return
         raise Unsupported(f"attribute store on {type(obj).__name__}")
 
     # ------------------------------------------------------------------ statements
@@ -614,9 +629,12 @@ class Interp:
         if isinstance(exc, ast.Call):
             cls = self.ev(exc.func, frame)
             # message arguments are dropped (only evaluated when trivially pure)
+            if not (inspect.isclass(cls) and issubclass(cls, BaseException)):
+                v = self.call(cls, [self.ev(a, frame) for a in exc.args], {}, frame)
+                cls = v.cls if isinstance(v, (Obj, AbsObj)) else v
         else:
             v = self.ev(exc, frame)
-            cls = v.cls if isinstance(v, Obj) else v
+            cls = v.cls if isinstance(v, (Obj, AbsObj)) else v
         if not (inspect.isclass(cls) and issubclass(cls, BaseException)):
             raise Unsupported(f"raise of non-exception {cls}")
         raise RaiseSig(cls, self.where())
